@@ -403,6 +403,8 @@ class Engine:
             if isinstance(o, HObj):
                 if node.attr in o.fields:
                     return o.fields[node.attr]
+                if (o.cls + "." + node.attr) in self.contracts:
+                    return VConc(o.cls + "." + node.attr, (base,))
                 if node.attr in self.methods:
                     return VConc("method:" + node.attr, (base,))
                 raise Unsupported("attribute %s of %s" % (node.attr, o.cls))
@@ -665,6 +667,7 @@ class Engine:
         raise Unsupported("binary op %s on %r, %r (line %s)" % (type(op).__name__, a, b, getattr(node, "lineno", "?")))
 
     python_float_div_raises = False
+    opaque_call = None
 
     def fpow(self, x, y, st, node):
         raise Unsupported("float power (line %s)" % getattr(node, "lineno", "?"))
@@ -825,11 +828,24 @@ class Engine:
 
     def ev_Call(self, node, st):
         fn = self.ev(node.func, st)
-        args = [self.ev(a, st) for a in node.args]
-        kwargs = {k.arg: self.ev(k.value, st) for k in node.keywords}
+        args = []
+        for a in node.args:
+            if isinstance(a, ast.Starred):
+                args.append(("*", self.ev(a.value, st)))
+            else:
+                args.append(self.ev(a, st))
+        kwargs = {}
+        for k in node.keywords:
+            if k.arg is None:
+                continue        # **kwargs passed through: ignored by every model
+            kwargs[k.arg] = self.ev(k.value, st)
         return self.call(fn, args, kwargs, st, node)
 
     def call(self, fn, args, kwargs, st, node):
+        if isinstance(fn, VFn):
+            if self.opaque_call is None:
+                raise Unsupported("call of an opaque object (line %d)" % node.lineno)
+            return self.opaque_call(self, st, fn, args, kwargs, node)
         if isinstance(fn, VConc):
             name = fn.name
             if name.startswith("method:"):
@@ -839,6 +855,8 @@ class Engine:
                     raise Unsupported("method %s (line %d)" % (name[7:], node.lineno))
                 return m(self, st, recv, args, kwargs, node)
             if name in self.contracts:
+                if fn.obj and isinstance(fn.obj, tuple) and isinstance(fn.obj[0], VRef):
+                    args = [fn.obj[0]] + list(args)       # bound method: receiver is `self`
                 return self.call_contract(self.contracts[name], args, kwargs, st, node)
             m = self.models.get(name)
             if m is not None:
